@@ -1,7 +1,7 @@
 /-
 The inductive invariant of the slot-by-slot loading loop of Rock::Rebuild and its preservation by the primitives.
 
-`InvCore cfg pL pC ex st`:
+`InvCore cfg img pL pC ex st`:
 * slots at positions >= pL are untouched;
 * an entry position that is Empty or Corrupted has a rewound anchor, Ignored never occurs (the map starts empty);
 * a Loading entry holds the exclusive lock and its `more` links spell a duplicate-free list of unfreed slots below pL
@@ -11,12 +11,15 @@ The inductive invariant of the slot-by-slot loading loop of Rock::Rebuild and it
   does not compare them);
 * chains of different Loaded entries are disjoint.
 -/
-import SquidModel.Rock.Finalize
+import SquidModel.Rock.Image
 
 namespace SquidModel.Rock
 
+/-- what the map slice of a chain slot must be: the payload size and link of the db cell at that position -/
+def diskSlice (h : Header) : Slice := { size := h.payloadSize, next := h.nextSlot }
+
 /-- the slice chain `C` of the Loaded entry `f` -/
-structure LoadedWith (cfg : Cfg) (pC : Int) (st : St) (f : Nat) (C : List Int) : Prop where
+structure LoadedWith (cfg : Cfg) (img : List RawSlot) (pC : Int) (st : St) (f : Nat) (C : List Int) : Prop where
   chain : Chain st.next (st.an f).start C
   nodup : C.Nodup
   range : InRange C pC
@@ -24,6 +27,10 @@ structure LoadedWith (cfg : Cfg) (pC : Int) (st : St) (f : Nat) (C : List Int) :
   sum : sumOn st.ssize C = (st.le f).size
   pos : 0 < (st.le f).size
   size : (st.an f).sfs = (st.le f).size ∨ (cfg.v.finalizeChecksKnownSize = false ∧ (st.le f).size < (st.an f).sfs)
+  /-- every chain slot is a mapped slot whose slice is what the db cell at that position says -/
+  cells : ∀ x ∈ C, (st.ls x).mapped = true ∧ ∃ h, usableAt cfg img x = some h ∧ st.sl x = diskSlice h
+  /-- when chains cannot leave their entry: every chain slot was added to this entry, is not freed and not on the free stack -/
+  own : Own cfg img → ∀ x ∈ C, (st.ls x).owner = (f : Int) ∧ (st.ls x).freed = false ∧ x ∉ st.free
 
 /-- the `more` list `L` of the Loading entry `f` -/
 structure LoadingWith (pL : Int) (st : St) (f : Nat) (L : List Int) : Prop where
@@ -32,28 +39,36 @@ structure LoadingWith (pL : Int) (st : St) (f : Nat) (L : List Int) : Prop where
   range : InRange L pL
   slots : ∀ x ∈ L, (st.ls x).freed = false ∧ (st.ls x).owner = (f : Int)
 
-structure InvCore (cfg : Cfg) (pL pC : Int) (ex : Option Nat) (st : St) : Prop where
+structure InvCore (cfg : Cfg) (img : List RawSlot) (pL pC : Int) (ex : Option Nat) (st : St) : Prop where
   fresh : ∀ x, pL ≤ x → st.ls x = {} ∧ st.sl x = {}
   noIgn : ∀ f, (st.le f).state ≠ .ignored
   idle : ∀ f, (st.le f).state = .empty ∨ (st.le f).state = .corrupted → st.an f = {}
   loading : ∀ f, (st.le f).state = .loading → (st.an f).writing = true ∧ (∃ L, LoadingWith pL st f L) ∧
     (ex ≠ some f → (st.an f).sfs = 0 ∨ (st.le f).size < (st.an f).sfs)
-  loaded : ∀ f, (st.le f).state = .loaded → (st.an f).writing = false ∧ ∃ C, LoadedWith cfg pC st f C
+  loaded : ∀ f, (st.le f).state = .loaded → (st.an f).writing = false ∧ ∃ C, LoadedWith cfg img pC st f C
   disj : ∀ f g, f ≠ g → (st.le f).state = .loaded → (st.le g).state = .loaded →
     ∀ Cf Cg, Chain st.next (st.an f).start Cf → Chain st.next (st.an g).start Cg → ∀ x ∈ Cf, x ∉ Cg
+  /-- a slot on the free stack was freed by the rebuild or belonged to a finalised chain that the map freed -/
+  fz : ∀ x ∈ st.free, (st.ls x).freed = true ∨ (st.ls x).finalized = true
+  /-- a mapped slot is a usable db cell, was added to the entry its key hashes to, and (until a walk finalises it)
+      its slice is what the cell says -/
+  disk : ∀ x, (st.ls x).mapped = true → ∃ h, usableAt cfg img x = some h ∧ (st.ls x).owner = (fileOf cfg img h : Int) ∧
+    ((st.ls x).finalized = false → st.sl x = diskSlice h)
 
 /-- between two slots every Loading entry with a known total has not reached it yet (otherwise addSlotToEntry
     finalised or freed it); while a slot is being added to entry `f` that entry is exempt (`ex = some f`) -/
-abbrev Inv (cfg : Cfg) (pos : Int) (st : St) : Prop := InvCore cfg pos pos none st
+abbrev Inv (cfg : Cfg) (img : List RawSlot) (pos : Int) (st : St) : Prop := InvCore cfg img pos pos none st
 
-theorem inv_init (cfg : Cfg) : Inv cfg 0 St.init := by
-  refine ⟨?_, ?_, ?_, ?_, ?_, ?_⟩
+theorem inv_init (cfg : Cfg) (img : List RawSlot) : Inv cfg img 0 St.init := by
+  refine ⟨?_, ?_, ?_, ?_, ?_, ?_, ?_, ?_⟩
   · intro x _; exact ⟨rfl, rfl⟩
   · intro f; simp [St.init]
   · intro f _; rfl
   · intro f h; simp [St.init] at h
   · intro f h; simp [St.init] at h
   · intro f g _ h; simp [St.init] at h
+  · intro x hx; simp [St.init] at hx
+  · intro x hx; simp [St.init] at hx
 
 /-! ### transfer lemmas -/
 
@@ -69,11 +84,14 @@ theorem LoadingWith.transfer {pL pL' : Int} {st st' : St} {f : Nat} {L : List In
     rw [b, c]
     exact h.slots x hx
 
-theorem LoadedWith.transfer {cfg : Cfg} {pC pC' : Int} {st st' : St} {f : Nat} {C : List Int} (h : LoadedWith cfg pC st f C)
+theorem LoadedWith.transfer {cfg : Cfg} {pC pC' : Int} {st st' : St} {f : Nat} {C : List Int} (h : LoadedWith cfg img pC st f C)
     (han : st'.an f = st.an f) (hle : (st'.le f).size = (st.le f).size) (hp : pC ≤ pC')
-    (hx : ∀ x ∈ C, st'.sl x = st.sl x ∧ (st'.ls x).finalized = true) :
-    LoadedWith cfg pC' st' f C := by
-  refine ⟨?_, h.nodup, h.range.mono hp, fun x hxC => (hx x hxC).2, ?_, by rw [hle]; exact h.pos, ?_⟩
+    (hx : ∀ x ∈ C, st'.sl x = st.sl x ∧ (st'.ls x).finalized = true)
+    (hm : ∀ x ∈ C, (st'.ls x).mapped = true)
+    (hown : Own cfg img → ∀ x ∈ C, (st.ls x).owner = (f : Int) → (st.ls x).freed = false → x ∉ st.free →
+      (st'.ls x).owner = (f : Int) ∧ (st'.ls x).freed = false ∧ x ∉ st'.free) :
+    LoadedWith cfg img pC' st' f C := by
+  refine ⟨?_, h.nodup, h.range.mono hp, fun x hxC => (hx x hxC).2, ?_, by rw [hle]; exact h.pos, ?_, ?_, ?_⟩
   · rw [han]
     refine Chain.frame (fun x hxC => ?_) h.chain
     simp only [St.next, (hx x hxC).1]
@@ -81,6 +99,12 @@ theorem LoadedWith.transfer {cfg : Cfg} {pC pC' : Int} {st st' : St} {f : Nat} {
     refine sumOn_frame (fun x hxC => ?_)
     simp only [St.ssize, (hx x hxC).1]
   · rw [han, hle]; exact h.size
+  · intro x hxC
+    obtain ⟨_, hd, hu, hs⟩ := h.cells x hxC
+    exact ⟨hm x hxC, hd, hu, by rw [(hx x hxC).1]; exact hs⟩
+  · intro ho x hxC
+    obtain ⟨a, b, c⟩ := h.own ho x hxC
+    exact hown ho x hxC a b c
 
 /-- disjointness of Loaded chains carries over when every entry that is Loaded afterwards was Loaded before with the
     same start and its old chain is still a chain -/
@@ -108,15 +132,17 @@ namespace SquidModel.Rock
 /-! ### preservation by the primitives -/
 
 /-- only `LoadingSlot` flags changed, in a way no Loading list or Loaded chain can notice -/
-theorem InvCore.of_ls_change {cfg : Cfg} {pL pC pL' pC' : Int} {st st' : St} (h : InvCore cfg pL pC ex st)
+theorem InvCore.of_ls_change {cfg : Cfg} {pL pC pL' pC' : Int} {st st' : St} (h : InvCore cfg img pL pC ex st)
     (hle : st'.le = st.le) (han : st'.an = st.an) (hsl : st'.sl = st.sl)
     (hkeep : ∀ x, (st'.ls x).more = (st.ls x).more ∧ (st'.ls x).owner = (st.ls x).owner ∧
-      ((st.ls x).finalized = true → (st'.ls x).finalized = true))
+      ((st.ls x).finalized = true → (st'.ls x).finalized = true) ∧ (st'.ls x).mapped = (st.ls x).mapped)
     (hfreed : ∀ x, 0 ≤ x → x < pL → (st'.ls x).freed = (st.ls x).freed)
-    (hfresh : ∀ x, pL' ≤ x → st'.ls x = {}) (hpL : pL ≤ pL') (hpC : pC ≤ pC') :
-    InvCore cfg pL' pC' ex st' := by
+    (hfmono : ∀ x, (st.ls x).freed = true → (st'.ls x).freed = true)
+    (hfree : ∀ x, x ∈ st'.free → x ∈ st.free ∨ (pL ≤ x ∧ (st'.ls x).freed = true))
+    (hfresh : ∀ x, pL' ≤ x → st'.ls x = {}) (hpL : pL ≤ pL') (hpC : pC ≤ pC') (hcl : pC ≤ pL) :
+    InvCore cfg img pL' pC' ex st' := by
   have hnext : st'.next = st.next := by funext x; simp [St.next, hsl]
-  refine ⟨?_, ?_, ?_, ?_, ?_, ?_⟩
+  refine ⟨?_, ?_, ?_, ?_, ?_, ?_, ?_, ?_⟩
   · intro x hx
     refine ⟨hfresh x hx, ?_⟩
     rw [hsl]; exact (h.fresh x (by omega)).2
@@ -132,20 +158,46 @@ theorem InvCore.of_ls_change {cfg : Cfg} {pL pC pL' pC' : Int} {st st' : St} (h 
   · intro f hf
     rw [hle] at hf
     obtain ⟨hw, C, hC⟩ := h.loaded f hf
-    refine ⟨by rw [han]; exact hw, C, hC.transfer (by rw [han]) (by rw [hle]) hpC ?_⟩
-    intro x hx
-    exact ⟨by rw [hsl], (hkeep x).2.2 (hC.fin x hx)⟩
+    refine ⟨by rw [han]; exact hw, C, hC.transfer (by rw [han]) (by rw [hle]) hpC ?_ ?_ ?_⟩
+    · intro x hx
+      exact ⟨by rw [hsl], (hkeep x).2.2.1 (hC.fin x hx)⟩
+    · intro x hx
+      rw [(hkeep x).2.2.2]; exact (hC.cells x hx).1
+    · intro _ x hx a b c
+      have hr := hC.range x hx
+      refine ⟨by rw [(hkeep x).2.1]; exact a, by rw [hfreed x hr.1 (by omega)]; exact b, ?_⟩
+      intro hx'
+      cases hfree x hx' with
+      | inl e => exact c e
+      | inr e => omega
   · refine disj_transfer h.disj ?_
     intro f hf
     rw [hle] at hf
     obtain ⟨_, C, hC⟩ := h.loaded f hf
     refine ⟨hf, by rw [han], C, hC.chain, ?_⟩
     rw [hnext]; exact hC.chain
+  · intro x hx
+    cases hfree x hx with
+    | inl e =>
+      cases h.fz x e with
+      | inl a => exact Or.inl (hfmono x a)
+      | inr a => exact Or.inr ((hkeep x).2.2.1 a)
+    | inr e => exact Or.inl e.2
+  · intro x hx
+    rw [(hkeep x).2.2.2] at hx
+    obtain ⟨hd, hu, ho, hs⟩ := h.disk x hx
+    refine ⟨hd, hu, by rw [(hkeep x).2.1]; exact ho, ?_⟩
+    intro hf
+    rw [hsl]
+    refine hs ?_
+    cases hfin : (st.ls x).finalized with
+    | false => rfl
+    | true => rw [(hkeep x).2.2.1 hfin] at hf; cases hf
 
 /-- `freeUnusedSlot` of the slot being loaded -/
-theorem InvCore.freeUnused {cfg : Cfg} {g : Geo} {p : Int} {st st' : St} (h : InvCore cfg p p ex st)
-    (hp : FreeSlotPost g p st p st') : InvCore cfg (p + 1) (p + 1) ex st' := by
-  refine h.of_ls_change hp.le hp.an hp.sl ?_ ?_ ?_ (by omega) (by omega)
+theorem InvCore.freeUnused {cfg : Cfg} {g : Geo} {p : Int} {st st' : St} (h : InvCore cfg img p p ex st)
+    (hp : FreeSlotPost g p st p st') : InvCore cfg img (p + 1) (p + 1) ex st' := by
+  refine h.of_ls_change hp.le hp.an hp.sl ?_ ?_ ?_ ?_ ?_ (by omega) (by omega) (Int.le_refl _)
   · intro x
     rw [hp.ls]
     by_cases hx : x = p
@@ -154,20 +206,35 @@ theorem InvCore.freeUnused {cfg : Cfg} {g : Geo} {p : Int} {st st' : St} (h : In
   · intro x _ hx
     rw [hp.ls, upd_other _ _ _ _ (by omega)]
   · intro x hx
+    rw [hp.ls]
+    by_cases hxp : x = p
+    · subst hxp; simp
+    · rw [upd_other _ _ _ _ hxp]; exact hx
+  · intro x hx
+    rw [hp.free] at hx
+    cases hx with
+    | head => right; refine ⟨Int.le_refl _, ?_⟩; rw [hp.ls]; simp
+    | tail _ hx => exact Or.inl hx
+  · intro x hx
     rw [hp.ls, upd_other _ _ _ _ (by omega)]
     exact (h.fresh x (by omega)).1
 
 /-- a walk that marked the slots `C` (all at or below `pos`) and changed nothing else -/
-theorem InvCore.markFinal {cfg : Cfg} {pL pC : Int} {st st' : St} {C : List Int} (h : InvCore cfg pL pC ex st)
+theorem InvCore.markFinal {cfg : Cfg} {pL pC : Int} {st st' : St} {C : List Int} (h : InvCore cfg img pL pC ex st)
     (hle : st'.le = st.le) (han : st'.an = st.an) (hsl : st'.sl = st.sl) (hls : st'.ls = markFinal st.ls C)
-    (hC : ∀ x ∈ C, x < pL) : InvCore cfg pL pC ex st' := by
-  refine h.of_ls_change hle han hsl ?_ ?_ ?_ (by omega) (by omega)
+    (hfree : st'.free = st.free) (hC : ∀ x ∈ C, x < pL) (hcl : pC ≤ pL) : InvCore cfg img pL pC ex st' := by
+  refine h.of_ls_change hle han hsl ?_ ?_ ?_ ?_ ?_ (by omega) (by omega) hcl
   · intro x
     rw [hls]
     by_cases hx : x ∈ C <;> simp [SquidModel.Rock.markFinal, hx]
   · intro x _ _
     rw [hls]
     by_cases hx : x ∈ C <;> simp [SquidModel.Rock.markFinal, hx]
+  · intro x hx
+    rw [hls]
+    by_cases hxC : x ∈ C <;> simp [SquidModel.Rock.markFinal, hxC, hx]
+  · intro x hx
+    rw [hfree] at hx; exact Or.inl hx
   · intro x hx
     rw [hls]
     have : x ∉ C := fun hxC => by have := hC x hxC; omega
@@ -177,15 +244,22 @@ theorem InvCore.markFinal {cfg : Cfg} {pL pC : Int} {st st' : St} {C : List Int}
 theorem ofNat_inj_of_ne {f g : Nat} (h : g ≠ f) : (g : Int) ≠ (f : Int) := by omega
 
 /-- `freeBadEntry` of the Loading entry `f` whose list is `L` -/
-theorem InvCore.freeBad {cfg : Cfg} {pL pC : Int} {st st' : St} {f : Nat} {L : List Int} (h : InvCore cfg pL pC ex st)
+theorem InvCore.freeBad {cfg : Cfg} {pL pC : Int} {st st' : St} {f : Nat} {L : List Int} (h : InvCore cfg img pL pC ex st)
     (hf : (st.le f).state = .loading) (hL : LoadingWith pL st f L)
     (hle : st'.le = upd st.le f { st.le f with state := .corrupted }) (han : st'.an = upd st.an f rewound)
-    (hsl : st'.sl = st.sl) (hls : st'.ls = markFreed st.ls L) : InvCore cfg pL pC ex st' := by
+    (hsl : st'.sl = st.sl) (hls : st'.ls = markFreed st.ls L) (hfree : ∀ x, x ∈ st'.free ↔ x ∈ L ∨ x ∈ st.free) :
+    InvCore cfg img pL pC ex st' := by
   have hnext : st'.next = st.next := by funext x; simp [St.next, hsl]
+  have hflags : ∀ x, (st'.ls x).more = (st.ls x).more ∧ (st'.ls x).owner = (st.ls x).owner ∧
+      (st'.ls x).finalized = (st.ls x).finalized ∧ (st'.ls x).mapped = (st.ls x).mapped ∧
+      ((st.ls x).freed = true → (st'.ls x).freed = true) := by
+    intro x
+    rw [hls]
+    by_cases hxL : x ∈ L <;> simp [markFreed, hxL]
   have hstate : ∀ g, g ≠ f → st'.le g = st.le g := fun g hg => by rw [hle, upd_other _ _ _ _ hg]
   have hanch : ∀ g, g ≠ f → st'.an g = st.an g := fun g hg => by rw [han, upd_other _ _ _ _ hg]
   have hstf : (st'.le f).state = .corrupted := by rw [hle]; simp
-  refine ⟨?_, ?_, ?_, ?_, ?_, ?_⟩
+  refine ⟨?_, ?_, ?_, ?_, ?_, ?_, ?_, ?_⟩
   · intro x hx
     have hxL : x ∉ L := fun hxL => by have := (hL.range x hxL).2; omega
     rw [hls, hsl]
@@ -220,12 +294,23 @@ theorem InvCore.freeBad {cfg : Cfg} {pL pC : Int} {st st' : St} {f : Nat} {L : L
       intro e; subst e; rw [hstf] at hg; cases hg
     rw [hstate g hgf] at hg
     obtain ⟨hw, C, hC⟩ := h.loaded g hg
-    refine ⟨by rw [hanch g hgf]; exact hw, C, hC.transfer (hanch g hgf) (by rw [hstate g hgf]) (by omega) ?_⟩
-    intro x hx
-    refine ⟨by rw [hsl], ?_⟩
-    rw [hls]
-    have := hC.fin x hx
-    by_cases hxL : x ∈ L <;> simp [markFreed, hxL, this]
+    refine ⟨by rw [hanch g hgf]; exact hw, C, hC.transfer (hanch g hgf) (by rw [hstate g hgf]) (by omega) ?_ ?_ ?_⟩
+    · intro x hx
+      exact ⟨by rw [hsl], by rw [(hflags x).2.2.1]; exact hC.fin x hx⟩
+    · intro x hx
+      rw [(hflags x).2.2.2.1]; exact (hC.cells x hx).1
+    · intro _ x hx a b c
+      have hxL : x ∉ L := by
+        intro hxL
+        have a' := (hL.slots x hxL).2
+        rw [a] at a'
+        exact ofNat_inj_of_ne hgf a'
+      refine ⟨by rw [(hflags x).2.1]; exact a, ?_, ?_⟩
+      · rw [hls]; simp only [markFreed, hxL, if_false]; exact b
+      · intro hx'
+        cases (hfree x).1 hx' with
+        | inl e => exact hxL e
+        | inr e => exact c e
   · refine disj_transfer h.disj ?_
     intro g hg
     have hgf : g ≠ f := by
@@ -234,12 +319,27 @@ theorem InvCore.freeBad {cfg : Cfg} {pL pC : Int} {st st' : St} {f : Nat} {L : L
     obtain ⟨_, C, hC⟩ := h.loaded g hg
     refine ⟨hg, by rw [hanch g hgf], C, hC.chain, ?_⟩
     rw [hnext]; exact hC.chain
+  · intro x hx
+    cases (hfree x).1 hx with
+    | inl e => left; rw [hls]; simp [markFreed, e]
+    | inr e =>
+      cases h.fz x e with
+      | inl a => exact Or.inl ((hflags x).2.2.2.2 a)
+      | inr a => right; rw [(hflags x).2.2.1]; exact a
+  · intro x hx
+    rw [(hflags x).2.2.2.1] at hx
+    obtain ⟨hd, hu, ho, hs⟩ := h.disk x hx
+    refine ⟨hd, hu, by rw [(hflags x).2.1]; exact ho, ?_⟩
+    intro hf'
+    rw [(hflags x).2.2.1] at hf'
+    rw [hsl]; exact hs hf'
 
 /-- `StoreMap::freeEntry` of the Loaded entry `f` (whose LoadingEntry state became Corrupted) -/
-theorem InvCore.mapFree {cfg : Cfg} {pL pC : Int} {st st' : St} {f : Nat} {C : List Int} (h : InvCore cfg pL pC ex st)
-    (hf : (st.le f).state = .loaded) (hC : LoadedWith cfg pC st f C)
+theorem InvCore.mapFree {cfg : Cfg} {pL pC : Int} {st st' : St} {f : Nat} {C : List Int} (h : InvCore cfg img pL pC ex st)
+    (hf : (st.le f).state = .loaded) (hC : LoadedWith cfg img pC st f C)
     (hle : st'.le = upd st.le f { st.le f with state := .corrupted }) (han : st'.an = upd st.an f rewound)
-    (hls : st'.ls = st.ls) (hsl : st'.sl = st.sl ∨ st'.sl = clearOn st.sl C) : InvCore cfg pL pC ex st' := by
+    (hls : st'.ls = st.ls) (hsl : st'.sl = st.sl ∨ st'.sl = clearOn st.sl C)
+    (hfree : ∀ x, x ∈ st'.free → x ∈ C ∨ x ∈ st.free) : InvCore cfg img pL pC ex st' := by
   have hstate : ∀ g, g ≠ f → st'.le g = st.le g := fun g hg => by rw [hle, upd_other _ _ _ _ hg]
   have hanch : ∀ g, g ≠ f → st'.an g = st.an g := fun g hg => by rw [han, upd_other _ _ _ _ hg]
   have hstf : (st'.le f).state = .corrupted := by rw [hle]; simp
@@ -249,10 +349,10 @@ theorem InvCore.mapFree {cfg : Cfg} {pL pC : Int} {st st' : St} {f : Nat} {C : L
     | inl e => rw [e]
     | inr e => rw [e]; simp [clearOn, hx]
   -- the chain of another Loaded entry is untouched
-  have hother : ∀ g, g ≠ f → (st.le g).state = .loaded → ∀ Cg, LoadedWith cfg pC st g Cg → ∀ x ∈ Cg, st'.sl x = st.sl x := by
+  have hother : ∀ g, g ≠ f → (st.le g).state = .loaded → ∀ Cg, LoadedWith cfg img pC st g Cg → ∀ x ∈ Cg, st'.sl x = st.sl x := by
     intro g hgf hg Cg hCg x hx
     exact hslx x (h.disj g f hgf hg hf Cg C hCg.chain hC.chain x hx)
-  refine ⟨?_, ?_, ?_, ?_, ?_, ?_⟩
+  refine ⟨?_, ?_, ?_, ?_, ?_, ?_, ?_, ?_⟩
   · intro x hx
     refine ⟨by rw [hls]; exact (h.fresh x hx).1, ?_⟩
     cases hsl with
@@ -284,9 +384,16 @@ theorem InvCore.mapFree {cfg : Cfg} {pL pC : Int} {st st' : St} {f : Nat} {C : L
       intro e; subst e; rw [hstf] at hg; cases hg
     rw [hstate g hgf] at hg
     obtain ⟨hw, Cg, hCg⟩ := h.loaded g hg
-    refine ⟨by rw [hanch g hgf]; exact hw, Cg, hCg.transfer (hanch g hgf) (by rw [hstate g hgf]) (by omega) ?_⟩
-    intro x hx
-    exact ⟨hother g hgf hg Cg hCg x hx, by rw [hls]; exact hCg.fin x hx⟩
+    refine ⟨by rw [hanch g hgf]; exact hw, Cg, hCg.transfer (hanch g hgf) (by rw [hstate g hgf]) (by omega) ?_ ?_ ?_⟩
+    · intro x hx
+      exact ⟨hother g hgf hg Cg hCg x hx, by rw [hls]; exact hCg.fin x hx⟩
+    · intro x hx; rw [hls]; exact (hCg.cells x hx).1
+    · intro _ x hx a b c
+      refine ⟨by rw [hls]; exact a, by rw [hls]; exact b, ?_⟩
+      intro hx'
+      cases hfree x hx' with
+      | inl e => exact h.disj g f hgf hg hf Cg C hCg.chain hC.chain x hx e
+      | inr e => exact c e
   · refine disj_transfer h.disj ?_
     intro g hg
     have hgf : g ≠ f := by
@@ -296,22 +403,36 @@ theorem InvCore.mapFree {cfg : Cfg} {pL pC : Int} {st st' : St} {f : Nat} {C : L
     refine ⟨hg, by rw [hanch g hgf], Cg, hCg.chain, ?_⟩
     refine Chain.frame (fun x hx => ?_) hCg.chain
     simp only [St.next, hother g hgf hg Cg hCg x hx]
+  · intro x hx
+    rw [hls]
+    cases hfree x hx with
+    | inl e => exact Or.inr (hC.fin x e)
+    | inr e => exact h.fz x e
+  · intro x hx
+    rw [hls] at hx
+    obtain ⟨hd, hu, ho, hs⟩ := h.disk x hx
+    refine ⟨hd, hu, by rw [hls]; exact ho, ?_⟩
+    intro hf'
+    rw [hls] at hf'
+    have hxC : x ∉ C := fun e => by have := hC.fin x e; rw [hf'] at this; cases this
+    rw [hslx x hxC]; exact hs hf'
 
 end SquidModel.Rock
 
 namespace SquidModel.Rock
 
 /-- changes to the LoadingEntry / anchor of a Loading entry that keep it Loading, locked and with the same chain start -/
-theorem InvCore.tweak {cfg : Cfg} {pL pC : Int} {st st' : St} {f : Nat} {e : LEntry} {a : Anchor} (h : InvCore cfg pL pC ex st)
+theorem InvCore.tweak {cfg : Cfg} {pL pC : Int} {st st' : St} {f : Nat} {e : LEntry} {a : Anchor} (h : InvCore cfg img pL pC ex st)
     (hf : (st.le f).state = .loading) (he : e.state = .loading) (ha : a.writing = true) (has : a.start = (st.an f).start)
     (hsz : ex ≠ some f → a.sfs = 0 ∨ e.size < a.sfs)
-    (hle : st'.le = upd st.le f e) (han : st'.an = upd st.an f a) (hls : st'.ls = st.ls) (hsl : st'.sl = st.sl) :
-    InvCore cfg pL pC ex st' := by
+    (hle : st'.le = upd st.le f e) (han : st'.an = upd st.an f a) (hls : st'.ls = st.ls) (hsl : st'.sl = st.sl)
+    (hfree : st'.free = st.free) :
+    InvCore cfg img pL pC ex st' := by
   have hnext : st'.next = st.next := by funext x; simp [St.next, hsl]
   have hstate : ∀ g, g ≠ f → st'.le g = st.le g := fun g hg => by rw [hle, upd_other _ _ _ _ hg]
   have hanch : ∀ g, g ≠ f → st'.an g = st.an g := fun g hg => by rw [han, upd_other _ _ _ _ hg]
   have hstf : (st'.le f).state = .loading := by rw [hle]; simpa using he
-  refine ⟨?_, ?_, ?_, ?_, ?_, ?_⟩
+  refine ⟨?_, ?_, ?_, ?_, ?_, ?_, by rw [hfree, hls]; exact h.fz, by rw [hls, hsl]; exact h.disk⟩
   · intro x hx; rw [hls, hsl]; exact h.fresh x hx
   · intro g
     by_cases hg : g = f
@@ -340,9 +461,12 @@ theorem InvCore.tweak {cfg : Cfg} {pL pC : Int} {st st' : St} {f : Nat} {e : LEn
       intro e'; subst e'; rw [hstf] at hg; cases hg
     rw [hstate g hgf] at hg
     obtain ⟨hw, C, hC⟩ := h.loaded g hg
-    refine ⟨by rw [hanch g hgf]; exact hw, C, hC.transfer (hanch g hgf) (by rw [hstate g hgf]) (by omega) ?_⟩
-    intro x hx
-    exact ⟨by rw [hsl], by rw [hls]; exact hC.fin x hx⟩
+    refine ⟨by rw [hanch g hgf]; exact hw, C, hC.transfer (hanch g hgf) (by rw [hstate g hgf]) (by omega) ?_ ?_ ?_⟩
+    · intro x hx
+      exact ⟨by rw [hsl], by rw [hls]; exact hC.fin x hx⟩
+    · intro x hx; rw [hls]; exact (hC.cells x hx).1
+    · intro _ x _ a b c
+      exact ⟨by rw [hls]; exact a, by rw [hls]; exact b, by rw [hfree]; exact c⟩
   · refine disj_transfer h.disj ?_
     intro g hg
     have hgf : g ≠ f := by
@@ -353,8 +477,9 @@ theorem InvCore.tweak {cfg : Cfg} {pL pC : Int} {st st' : St} {f : Nat} {e : LEn
     rw [hnext]; exact hC.chain
 
 /-- `mapSlot` of the slot being loaded (already chained into its entry) -/
-theorem InvCore.mapSlot {cfg : Cfg} {p : Int} {st st' : St} {hd : Header} (h : InvCore cfg (p + 1) p ex st)
-    (hp : MapSlotPost st p hd st') : InvCore cfg (p + 1) p ex st' := by
+theorem InvCore.mapSlot {cfg : Cfg} {p : Int} {st st' : St} {hd : Header} (h : InvCore cfg img (p + 1) p ex st)
+    (hp : MapSlotPost st p hd st') (hu : usableAt cfg img p = some hd) (hown : (st.ls p).owner = (fileOf cfg img hd : Int)) :
+    InvCore cfg img (p + 1) p ex st' := by
   have hslx : ∀ x, x ≠ p → st'.sl x = st.sl x := fun x hx => by rw [hp.sl, upd_other _ _ _ _ hx]
   have hlsx : ∀ x, (st'.ls x).more = (st.ls x).more ∧ (st'.ls x).freed = (st.ls x).freed ∧ (st'.ls x).owner = (st.ls x).owner ∧
       (st'.ls x).finalized = (st.ls x).finalized := by
@@ -363,7 +488,9 @@ theorem InvCore.mapSlot {cfg : Cfg} {p : Int} {st st' : St} {hd : Header} (h : I
     by_cases hx : x = p
     · subst hx; simp
     · simp [upd_other _ _ _ _ hx]
-  refine ⟨?_, ?_, ?_, ?_, ?_, ?_⟩
+  have hmapped : ∀ x, x ≠ p → (st'.ls x).mapped = (st.ls x).mapped := by
+    intro x hx; rw [hp.ls, upd_other _ _ _ _ hx]
+  refine ⟨?_, ?_, ?_, ?_, ?_, ?_, ?_, ?_⟩
   · intro x hx
     have hxp : x ≠ p := by omega
     rw [hp.ls, hp.sl, upd_other _ _ _ _ hxp, upd_other _ _ _ _ hxp]
@@ -380,10 +507,15 @@ theorem InvCore.mapSlot {cfg : Cfg} {p : Int} {st st' : St} {hd : Header} (h : I
   · intro f hf
     rw [hp.le] at hf
     obtain ⟨hw, C, hC⟩ := h.loaded f hf
-    refine ⟨by rw [hp.an]; exact hw, C, hC.transfer (by rw [hp.an]) (by rw [hp.le]) (by omega) ?_⟩
-    intro x hx
-    have hxp : x ≠ p := by have := (hC.range x hx).2; omega
-    exact ⟨hslx x hxp, by rw [(hlsx x).2.2.2]; exact hC.fin x hx⟩
+    refine ⟨by rw [hp.an]; exact hw, C, hC.transfer (by rw [hp.an]) (by rw [hp.le]) (by omega) ?_ ?_ ?_⟩
+    · intro x hx
+      have hxp : x ≠ p := by have := (hC.range x hx).2; omega
+      exact ⟨hslx x hxp, by rw [(hlsx x).2.2.2]; exact hC.fin x hx⟩
+    · intro x hx
+      have hxp : x ≠ p := by have := (hC.range x hx).2; omega
+      rw [hmapped x hxp]; exact (hC.cells x hx).1
+    · intro _ x _ a b c
+      exact ⟨by rw [(hlsx x).2.2.1]; exact a, by rw [(hlsx x).2.1]; exact b, by rw [hp.free]; exact c⟩
   · refine disj_transfer h.disj ?_
     intro f hf
     rw [hp.le] at hf
@@ -392,12 +524,65 @@ theorem InvCore.mapSlot {cfg : Cfg} {p : Int} {st st' : St} {hd : Header} (h : I
     refine Chain.frame (fun x hx => ?_) hC.chain
     have hxp : x ≠ p := by have := (hC.range x hx).2; omega
     simp only [St.next, hslx x hxp]
+  · intro x hx
+    rw [hp.free] at hx
+    cases h.fz x hx with
+    | inl a => left; rw [(hlsx x).2.1]; exact a
+    | inr a => right; rw [(hlsx x).2.2.2]; exact a
+  · intro x hx
+    by_cases hxp : x = p
+    · subst hxp
+      refine ⟨hd, hu, by rw [(hlsx x).2.2.1]; exact hown, fun _ => ?_⟩
+      rw [hp.sl]; simp [diskSlice]
+    · rw [hmapped x hxp] at hx
+      obtain ⟨hd', hu', ho, hs⟩ := h.disk x hx
+      refine ⟨hd', hu', by rw [(hlsx x).2.2.1]; exact ho, ?_⟩
+      intro hf'
+      rw [(hlsx x).2.2.2] at hf'
+      rw [hslx x hxp]; exact hs hf'
+
+/-- when no link leaves its entry position, a chain of mapped, not yet finalised slots stays with the owner of its start -/
+theorem seg_owner_of_links {cfg : Cfg} {img : List RawSlot} {st : St} (hl : LinksClosed cfg img)
+    (hdisk : ∀ x, (st.ls x).mapped = true → ∃ h, usableAt cfg img x = some h ∧ (st.ls x).owner = (fileOf cfg img h : Int) ∧
+      ((st.ls x).finalized = false → st.sl x = diskSlice h)) :
+    ∀ (C : List Int) (s e : Int) (o : Int), Seg st.next s C e →
+      (∀ x ∈ C, (st.ls x).mapped = true ∧ (st.ls x).finalized = false) → (st.ls s).owner = o → ∀ x ∈ C, (st.ls x).owner = o := by
+  intro C
+  induction C with
+  | nil => intro s e o _ _ _ x hx; cases hx
+  | cons y ys ih =>
+    intro s e o hseg hall hs x hx
+    obtain ⟨hsy, _, hrest⟩ := hseg
+    subst hsy
+    cases hx with
+    | head => exact hs
+    | tail _ hx =>
+      -- the link from s leads to the head of ys, which hashes to the same entry position
+      cases ys with
+      | nil => cases hx
+      | cons z zs =>
+        obtain ⟨hz, hz0, hzs⟩ := hrest
+        obtain ⟨hm, hf⟩ := hall s (List.mem_cons_self ..)
+        obtain ⟨h1, hu1, ho1, hs1⟩ := hdisk s hm
+        have hnx : st.next s = h1.nextSlot := by
+          simp only [St.next, hs1 hf, diskSlice]
+        obtain ⟨h2, hu2, hfile⟩ := hl s h1 hu1 (by rw [← hnx, hz]; exact hz0)
+        obtain ⟨hmz, _⟩ := hall z (List.mem_cons_of_mem _ (List.mem_cons_self ..))
+        obtain ⟨h3, hu3, ho3, _⟩ := hdisk z hmz
+        have hzz : z = h1.nextSlot := by rw [← hnx, hz]
+        rw [← hzz] at hu2
+        rw [hu3] at hu2
+        simp only [Option.some.injEq] at hu2
+        have hoz : (st.ls (st.next s)).owner = o := by
+          rw [hz, ho3, hu2, hfile, ← ho1]; exact hs
+        exact ih (st.next s) e o ⟨hz, hz0, hzs⟩
+          (fun w hw => hall w (List.mem_cons_of_mem _ hw)) hoz x hx
 
 /-- a successful `finalizeOrThrow` of the Loading entry `f` -/
 theorem InvCore.finalized {cfg : Cfg} {g : Geo} {pos pL pC pC' : Int} {st st' : St} {f : Nat} {C : List Int}
-    (h : InvCore cfg pL pC ex st) (hf : (st.le f).state = .loading) (hok : FinalizeOk cfg g pos st f C st')
+    (h : InvCore cfg img pL pC ex st) (hf : (st.le f).state = .loading) (hok : FinalizeOk cfg g pos st f C st')
     (hb : ∀ x, slotOk g pos x = true → x < pL ∧ x < pC') (hpc : pC ≤ pC')
-    (hsz : (st.an f).sfs = 0 ∨ (st.le f).size ≤ (st.an f).sfs) : InvCore cfg pL pC' ex st' := by
+    (hsz : (st.an f).sfs = 0 ∨ (st.le f).size ≤ (st.an f).sfs) : InvCore cfg img pL pC' ex st' := by
   have hnext : st'.next = st.next := by funext x; simp [St.next, hok.sl]
   have hssize : st'.ssize = st.ssize := by funext x; simp [St.ssize, hok.sl]
   have hstate : ∀ k, k ≠ f → st'.le k = st.le k := fun k hk => by rw [hok.le, upd_other _ _ _ _ hk]
@@ -413,13 +598,15 @@ theorem InvCore.finalized {cfg : Cfg} {g : Geo} {pos pL pC pC' : Int} {st st' : 
     intro x hx
     rw [hok.ls]
     by_cases hxC : x ∈ C <;> simp [SquidModel.Rock.markFinal, hxC, hx]
-  have hkeep : ∀ x, (st'.ls x).more = (st.ls x).more ∧ (st'.ls x).freed = (st.ls x).freed ∧ (st'.ls x).owner = (st.ls x).owner := by
+  have hkeep : ∀ x, (st'.ls x).more = (st.ls x).more ∧ (st'.ls x).freed = (st.ls x).freed ∧ (st'.ls x).owner = (st.ls x).owner ∧
+      (st'.ls x).mapped = (st.ls x).mapped := by
     intro x
     rw [hok.ls]
     by_cases hxC : x ∈ C <;> simp [SquidModel.Rock.markFinal, hxC]
+  obtain ⟨_, ⟨L, hL⟩, _⟩ := h.loading f hf
   -- the new chain
-  have hnew : LoadedWith cfg pC' st' f C := by
-    refine ⟨?_, hok.nodup, ?_, ?_, ?_, ?_, ?_⟩
+  have hnew : LoadedWith cfg img pC' st' f C := by
+    refine ⟨?_, hok.nodup, ?_, ?_, ?_, ?_, ?_, ?_, ?_⟩
     · rw [hnext, hok.an]; simp only [upd_same, finalAnchor]; exact hok.chain
     · intro x hx; have := hCr x hx; omega
     · intro x hx; rw [hok.ls]; simp [SquidModel.Rock.markFinal, hx]
@@ -442,12 +629,46 @@ theorem InvCore.finalized {cfg : Cfg} {g : Geo} {pos pL pC pC' : Int} {st st' : 
             by_cases heq : (st.an f).sfs = (st.le f).size
             · exact Or.inl heq
             · exact Or.inr ⟨rfl, by omega⟩
-  have hold : ∀ k, k ≠ f → (st.le k).state = .loaded → ∀ Ck, LoadedWith cfg pC st k Ck → LoadedWith cfg pC' st' k Ck := by
+    · intro x hx
+      have w := hok.slots x hx
+      obtain ⟨hd, hu, _, hs⟩ := h.disk x w.mapped
+      exact ⟨by rw [(hkeep x).2.2.2]; exact w.mapped, hd, hu, by rw [hok.sl]; exact hs w.fresh⟩
+    · intro ho x hx
+      have w := hok.slots x hx
+      refine ⟨?_, by rw [(hkeep x).2.1]; exact w.unfreed, ?_⟩
+      · rw [(hkeep x).2.2.1]
+        cases ho with
+        | inl hflag => exact w.owner hflag
+        | inr hlinks =>
+          obtain ⟨e, hseg, _⟩ := hok.chain
+          have hne : C ≠ [] := by
+            intro e'; subst e'
+            have := hok.sum
+            simp only [sumOn] at this
+            have := hok.pos
+            omega
+          have hstart : (st.ls (st.an f).start).owner = (f : Int) := by
+            cases C with
+            | nil => exact absurd rfl hne
+            | cons c cs =>
+              obtain ⟨hc, hc0, _⟩ := hseg
+              exact (hL.slots _ (hL.chain.start_mem (by rw [hc]; exact hc0))).2
+          exact seg_owner_of_links hlinks h.disk C _ e _ hseg
+            (fun y hy => ⟨(hok.slots y hy).mapped, (hok.slots y hy).fresh⟩) hstart x hx
+      · rw [hok.free]
+        intro hx'
+        cases h.fz x hx' with
+        | inl a => rw [w.unfreed] at a; cases a
+        | inr a => rw [w.fresh] at a; cases a
+  have hold : ∀ k, k ≠ f → (st.le k).state = .loaded → ∀ Ck, LoadedWith cfg img pC st k Ck → LoadedWith cfg img pC' st' k Ck := by
     intro k hk _ Ck hCk
-    refine hCk.transfer (hanch k hk) (by rw [hstate k hk]) hpc ?_
-    intro x hx
-    exact ⟨by rw [hok.sl], hfin x (hCk.fin x hx)⟩
-  refine ⟨?_, ?_, ?_, ?_, ?_, ?_⟩
+    refine hCk.transfer (hanch k hk) (by rw [hstate k hk]) hpc ?_ ?_ ?_
+    · intro x hx
+      exact ⟨by rw [hok.sl], hfin x (hCk.fin x hx)⟩
+    · intro x hx; rw [(hkeep x).2.2.2]; exact (hCk.cells x hx).1
+    · intro _ x _ a b c
+      exact ⟨by rw [(hkeep x).2.2.1]; exact a, by rw [(hkeep x).2.1]; exact b, by rw [hok.free]; exact c⟩
+  refine ⟨?_, ?_, ?_, ?_, ?_, ?_, ?_, ?_⟩
   · intro x hx
     have hxC : x ∉ C := fun hxC => by have := hCr x hxC; omega
     rw [hok.ls, hok.sl]
@@ -471,7 +692,7 @@ theorem InvCore.finalized {cfg : Cfg} {g : Geo} {pos pL pC pC' : Int} {st st' : 
     obtain ⟨hw, ⟨L, hL⟩, hs⟩ := h.loading k hk
     refine ⟨by rw [hanch k hkf]; exact hw, ⟨L, hL.transfer (by rw [hanch k hkf]) (by omega) ?_⟩,
       by rw [hanch k hkf, hstate k hkf]; exact hs⟩
-    intro x _; exact hkeep x
+    intro x _; exact ⟨(hkeep x).1, (hkeep x).2.1, (hkeep x).2.2.1⟩
   · intro k hk
     by_cases hkf : k = f
     · subst hkf
@@ -511,5 +732,20 @@ theorem InvCore.finalized {cfg : Cfg} {g : Geo} {pos pL pC pC' : Int} {st st' : 
         cases this
       | inr hb' =>
         exact h.disj a b hab ha'.2.1 hb'.2.1 Ca Cb ha'.2.2.1 hb'.2.2.1 x hxa hxb
+  · intro x hx
+    rw [hok.free] at hx
+    cases h.fz x hx with
+    | inl a => left; rw [(hkeep x).2.1]; exact a
+    | inr a => exact Or.inr (hfin x a)
+  · intro x hx
+    rw [(hkeep x).2.2.2] at hx
+    obtain ⟨hd, hu, ho, hs⟩ := h.disk x hx
+    refine ⟨hd, hu, by rw [(hkeep x).2.2.1]; exact ho, ?_⟩
+    intro hf'
+    rw [hok.sl]
+    refine hs ?_
+    cases hfx : (st.ls x).finalized with
+    | false => rfl
+    | true => rw [hfin x hfx] at hf'; cases hf'
 
 end SquidModel.Rock
